@@ -90,6 +90,9 @@ def nest_html(cs, hid, mid):
     c, r = cs[0], cs[1:]
     if c == "Q":
         return "<blockquote>\n" + nest_html(r, False, mid) + "</blockquote>\n"
+    if len(c) == 3:
+        start = "" if int(c[0]) == 1 else ' start="%d"' % int(c[0])
+        return "<ol" + start + ">\n<li>" + ("\n" if r else "") + nest_html(r, True, mid) + "</li>\n</ol>\n"
     return "<ul>\n<li>" + ("\n" if r else "") + nest_html(r, True, mid) + "</li>\n</ul>\n"
 
 
@@ -159,7 +162,8 @@ def run(ctx) -> int:
     # "> " / bullet markers up to depth 2 and sampled deeper ones: the HTML must be exactly nest_html(cs, escapeHtml(t))
     import itertools
     nest_bad = None
-    ctrs = ["Q"] + [(m, k) for m in "-*+" for k in (1, 2, 3, 4)]
+    ctrs = (["Q"] + [(m, k) for m in "-*+" for k in (1, 2, 3, 4)]
+            + [(ds, dl, k) for ds in ("1", "2", "007", "10", "999999999", "0") for dl in ".)" for k in (1, 4)])
     nrng = rng_for("C09", seed, "nest")
     fams = [cs for depth in range(0, 3) for cs in itertools.product(ctrs, repeat=depth)]
     fams += [tuple(nrng.choice(ctrs) for _ in range(nrng.randrange(3, 7))) for _ in range(40 if q else 2000)]
@@ -168,7 +172,7 @@ def run(ctx) -> int:
         t = t.rstrip(" \t") or "x"
         if t != t.strip() or any(ord(c) < 32 or ord(c) == 0x7f for c in t):
             t = "xa*b_[c]<d>&e"
-        src = "".join("> " if c == "Q" else c[0] + " " * c[1] for c in cs) + esc_form(t) + "\n"
+        src = "".join("> " if c == "Q" else (c[0] + " " * c[1] if len(c) == 2 else c[0] + c[1] + " " * c[2]) for c in cs) + esc_form(t) + "\n"
         count["n"] += 1
         out = guarded(mds[0][1].render, src)
         if out != nest_html(list(cs), False, esc_html(t)) and nest_bad is None:
